@@ -125,12 +125,13 @@ Example C32_select_nonvacuous :
           r_plan := None; r_anytime := None |} = NoSuitable.
 Proof. vm_compute. split; reflexivity. Qed.
 
+(* (a top-level definition rather than `let … in`: coqchk 8.16 rejects the VM-cast proof term of a let-bound statement) *)
+Definition ex_k1 := K [f_ACTION_BASED; f_DISJUNCTIVE_CONDITIONS; f_FLAT_TYPING].
 Example C32_pipeline_nonvacuous :
-  let k1 := K [f_ACTION_BASED; f_DISJUNCTIVE_CONDITIONS; f_FLAT_TYPING] in
   pipeline gen_tables builtin_engines offline_prefs None [ck_QUANTIFIERS_REMOVING; ck_GROUNDING]
            (K [f_ACTION_BASED; f_EXISTENTIAL_CONDITIONS; f_FLAT_TYPING])
   = Pipe [("up_quantifiers_remover"%string, E_up_quantifiers_remover, K [f_ACTION_BASED; f_EXISTENTIAL_CONDITIONS; f_FLAT_TYPING]);
-          ("tarski_grounder"%string, E_tarski_grounder, k1)] k1.
+          ("tarski_grounder"%string, E_tarski_grounder, ex_k1)] ex_k1.
 Proof. vm_compute. reflexivity. Qed.
 
 Example C32_pipeline_no_suitable_nonvacuous :
